@@ -38,7 +38,17 @@ type caller struct {
 	deadline bool
 }
 
+// hangs counts cases in which a logical thread blocked outside every schedule point (a code change made an Ask
+// wait on something the harness cannot see). Each such case costs a step timeout, so after maxHangs the remaining
+// cases of this process are answered `HANG-skipped` at once: the check is already a violation by then.
+var hangs int
+
+const maxHangs = 12
+
 func run(line string) string {
+	if hangs >= maxHangs {
+		return "HANG-skipped"
+	}
 	parts := strings.Split(line, "|")
 	cfg := strings.Fields(parts[0])
 	if len(parts) != 3 || len(cfg) != 2 || cfg[0] != "ask" || (cfg[1] != "asis" && cfg[1] != "fixed") {
@@ -177,6 +187,17 @@ func run(line string) string {
 			}
 		}
 	}
+	if stuck {
+		// unblock whatever can be unblocked, leave the rest parked, and report the schedule
+		hangs++
+		for _, c := range cs {
+			if c.cancel != nil {
+				c.cancel()
+			}
+		}
+		s.Release(time.Second)
+		return "HANG " + strings.Join(trace, " ")
+	}
 	if !s.AllDone() {
 		trace = append(trace, "cap")
 		for _, c := range cs {
@@ -212,4 +233,9 @@ func run(line string) string {
 	return "T " + strings.Join(trace, " ") + " | R " + strings.Join(rs, ";") + " | F " + fin
 }
 
-func main() { vlib.Loop(run) }
+func main() {
+	// a step of this harness is a few atomic operations; a thread that has not reached its next point after
+	// a second is blocked for good
+	vlib.StepTimeout = time.Second
+	vlib.Loop(run)
+}
